@@ -1048,6 +1048,7 @@ def apalache_stretch():
                           ('IndInv/\\Next=>IndInv\'', ['--init=IndInv', '--inv=IndInv', '--length=1'])):
             try:
                 p = subprocess.run([exe, 'check'] + args + ['--out-dir=' + d, '--run-dir=' + d, spec], cwd=d,
+                                   env=dict(os.environ, TMPDIR=d),     # its SANY temp dirs go into the scratch dir
                                    stdout=subprocess.PIPE, stderr=subprocess.STDOUT, text=True, timeout=600)
                 m = [ln for ln in p.stdout.splitlines() if 'The outcome is' in ln]
                 res[key] = (m[0].split('The outcome is:')[1].split()[0] if m else 'rc=%d' % p.returncode)
